@@ -170,7 +170,8 @@ class Report:
                     viol_known.append((rec, known[full]))
                 else:
                     viol_new.append(rec)
-        os.makedirs(os.path.join(env.VERIF, "replays"), exist_ok=True)
+        rdir = os.environ.get("VERIF_REPLAY_DIR") or os.path.join(env.VERIF, "replays")
+        os.makedirs(rdir, exist_ok=True)
         for rec, k in viol_known:
             print(
                 f"KNOWN-FINDING: property={self.pid} {k.get('what', rec['what'])} "
@@ -178,7 +179,7 @@ class Report:
                 flush=True,
             )
         for i, rec in enumerate(viol_new):
-            path = os.path.join(env.VERIF, "replays", f"{self.pid}-{i}.json")
+            path = os.path.join(rdir, f"{self.pid}-{i}.json")
             with open(path, "w") as f:
                 json.dump(
                     {"property": self.pid, "tier": self.tier, "seed": self.seed, **rec},
@@ -258,8 +259,9 @@ class Report:
             "wall_s": round(time.perf_counter() - self.t0, 3),
             "violations": len(viol_new),
         }
-        os.makedirs(os.path.join(env.VERIF, "evidence"), exist_ok=True)
-        path = os.path.join(env.VERIF, "evidence", f"{self.pid}.json")
+        edir = os.environ.get("VERIF_EVIDENCE_DIR") or os.path.join(env.VERIF, "evidence")
+        os.makedirs(edir, exist_ok=True)
+        path = os.path.join(edir, f"{self.pid}.json")
         tmp = path + ".tmp"
         with open(tmp, "w") as f:
             json.dump(doc, f, indent=1)
